@@ -96,7 +96,7 @@ impl Hist for C16 {
 }
 
 fn configs(tier: Tier) -> Vec<(C16, usize)> {
-    let d = if tier == Tier::Quick { 4 } else { 7 };
+    let d = if tier == Tier::Quick { 5 } else { 7 };
     vec![(C16 { tpl0: 2, initial_tab: None }, d), (C16 { tpl0: 0, initial_tab: Some(4) }, d - 1), (C16 { tpl0: 1, initial_tab: Some(0) }, d - 1)]
 }
 
